@@ -72,7 +72,7 @@ def run_C01(ctx):
              "every destination 0..len+40 and huge words", nontrivial=lambda c: c.get("byte_is_jumpdest", False))
     corr_run(ctx, "memsize", ["memsize", "--n", n_cases(ctx, 60, 2500)],
              "Model/MemSize.v (which operands name a memory region, calcMemSize64, rounding to words) vs the memory length successive instructions of a frame see, "
-             "generated executions on all 13 rule sets", nontrivial=lambda c: c.get("memory_after", 0) > c.get("memory_before", 0), has_oracle=True, oracle_prefix="C01")
+             "generated executions on all 13 rule sets + memory-walk programs", nontrivial=lambda c: c.get("memory_after", 0) > c.get("memory_before", 0), has_oracle=True, oracle_prefix="C01")
     ref_run(ctx, "diffref", ["diffref", "--n", n_cases(ctx, 700, 15000)],
             "artela-evm vm vs go-ethereum v1.12.0 core/vm on generated programs (results, post-state root, logs, refund, self-destructs, debug events)",
             nontrivial=lambda c: c.get("steps", 0) >= 5)
@@ -103,6 +103,11 @@ def run_C02(ctx):
              "Model/SStore.v (charge and refund of SSTORE under the five schedules: legacy, EIP-1283, EIP-2200, EIP-2929 with the EIP-2200 / EIP-3529 clearing refund) vs every "
              "SSTORE of storage-heavy generated executions on all 13 rule sets (committed, current, new value, gas, charge, refund counter before and after)",
              nontrivial=lambda c: c.get("current") != c.get("value"))
+    corr_run(ctx, "memsize", ["memsize", "--n", n_cases(ctx, 90, 2500)],
+             "Model/MemGas.v (memoryGasCost with the Memory object's lastGasCost bookkeeping on 64 bits; pureMemoryGascost, memoryCopierGas, gasKeccak256, makeGasLog) vs the cost "
+             "the tracer is told for MLOAD/MSTORE/MSTORE8/KECCAK256/CALLDATACOPY/CODECOPY/RETURNDATACOPY/MCOPY/LOG0-4 in generated executions and memory-walk programs "
+             "(uneven strides past the 22 words below which the quadratic term vanishes), all 13 rule sets", nontrivial=lambda c: c.get("memory_after", 0) > c.get("memory_before", 0) > 0,
+             has_oracle=True, oracle_prefix="C02")
     ref_run(ctx, "diffref", ["diffref", "--mode", "gas", "--n", n_cases(ctx, 800, 8000)],
             "per-step gas/cost stream, frame gas hand-over, refund and leftover gas vs go-ethereum v1.12.0, re-run at gas limits one below / on / one above intermediate gas values",
             nontrivial=lambda c: c.get("steps", 0) >= 3)
@@ -267,6 +272,10 @@ def run_C20(ctx):
     corr_run(ctx, "modexpgas", ["modexpgas", "--n", n_cases(ctx, 300, 8000)],
              "Model/ModExp.v (bigModExp.RequiredGas, EIP-198 and EIP-2565 schedules with the 64-bit clamp) vs the precompile of the Byzantium and Berlin tables: headers from powers of two "
              "and neighbours, instances with chosen exponent heads, truncated inputs, the clamp region", nontrivial=lambda c: True, has_oracle=True, oracle_prefix="C20")
+    corr_run(ctx, "memsize", ["memsize", "--n", n_cases(ctx, 90, 2500)],
+             "Model/MemGas.v + Model/MemSize.v vs the memory length and cost of successive instructions (generated executions and memory-walk programs, all 13 rule sets); oracle: no "
+             "instruction grows the frame's memory by more than 32/3 bytes per unit of gas it is charged", nontrivial=lambda c: c.get("memory_after", 0) > c.get("memory_before", 0),
+             has_oracle=True, oracle_prefix="C20")
     ref_run(ctx, "workscan", ["workscan"], "state reads (counting StateDB) and allocated bytes per journal instruction / Artela precompile call with length fields 2^5..2^16 (2^22 thorough)",
             oracle_prefix="C20")
     corr_run(ctx, "journal", ["journal", "--n", n_cases(ctx, 800, 40000)], "Model/Journal.v decoders vs the instructions (the work formulas are about these functions)",
@@ -309,10 +318,10 @@ PROPS = {
     },
     "C02": {
         "run": run_C02,
-        "technique": "Coq theorems over regenerated facts (gas functions, constants and table entries identical to go-ethereum v1.12.0) + differential per-step gas comparison at boundary gas limits",
+        "technique": "Coq theorems over regenerated facts (gas functions, constants and table entries identical to go-ethereum v1.12.0) and over hand-written models of forwarded call gas, SSTORE schedules and the memory fee bookkeeping, each run against the implementation + differential per-step gas comparison at boundary gas limits",
         "level_text": "Same regenerated-facts theorems as C01 (every gas function, constant-gas entry and dynamic-gas symbol identical to upstream or reviewed). The differential run compares, for every executed step, "
                       "(pc, opcode, gas before, cost, depth), the gas handed to and back by every frame (enter/exit events), the refund counter and the leftover gas, and re-runs each program with gas limits one unit short of, "
-                      "exactly on and one unit above randomly chosen intermediate gas values, so that out-of-gas must strike at the same instruction. The gas a CALL-family instruction forwards (callGas, EIP-150) and the gas its callee frame starts with (stipend) are modelled (Model/CallGas.v): forwarded = min(request, all but one 64th of what is left) for every 256-bit request, and checked against every such instruction of generated executions on all 13 rule sets.",
+                      "exactly on and one unit above randomly chosen intermediate gas values, so that out-of-gas must strike at the same instruction. The gas a CALL-family instruction forwards (callGas, EIP-150) and the gas its callee frame starts with (stipend) are modelled (Model/CallGas.v): forwarded = min(request, all but one 64th of what is left) for every 256-bit request, and checked against every such instruction of generated executions on all 13 rule sets. The memory-expansion fee is modelled as the code computes it (Model/MemGas.v: memoryGasCost with the Memory object's lastGasCost field as state, 64-bit arithmetic with the wraps written out): lastGasCost is always the total fee of the current length, so the fee is the difference of the totals 3w + w^2/512 with no wrap-around, and the total a frame pays is path independent; run against the cost reported for MLOAD/MSTORE/MSTORE8/KECCAK256/copies/MCOPY/LOG in generated executions and memory-walk programs.",
         "level_note": COMMON_NOTE + REF_NOTE,
         "rule": "as C01; every case is followed by 2 (quick) / 6 (thorough) x 3 boundary gas limits; warm/cold access-list states arise from the calls inside the programs and StateDB.Prepare; non-trivial = at least 3 executed steps",
         "modelled": [],
@@ -434,10 +443,10 @@ PROPS.update({
     },
     "C20": {
         "run": run_C20,
-        "technique": "Coq theorems (work formulas of the journal decoders and ABI decoder; refutation witness for the reference journal) + counting-StateDB / allocation sweep over length fields 2^k",
+        "technique": "Coq theorems (work formulas of the journal decoders and ABI decoder; refutation witness for the reference journal; MODEXP fee bounds operand lengths; memory bytes bounded by the gas paid for every sequence of expansions) + correspondence runs + counting-StateDB / allocation sweep over length fields 2^k",
         "level_text": "Theorems in Coq: the value journal reads one slot and copies at most 32 bytes; memory strings copied by the key journals lie within the frame's memory; the context-write precompile returns sub-slices of its calldata; "
                       "the reference journal performs 1 + ceil(len/32) reads with len taken from a contract-controlled storage word — the bound by a fixed multiple of the flat 800 gas is REFUTED (theorem with witness, known finding F7) and the weaker bound by the encoded length is proved. "
-                      "A sweep with a counting StateDB and allocation accounting runs each journal instruction and the context-write precompile with length fields 2^5..2^16 (2^22 thorough). MODEXP's fee function is modelled with its clamp (Model/ModExp.v): unless the fee is the unpayable maximum, the operand lengths the input declares are at most 51 x fee + 66; the model is run against RequiredGas of both schedules.",
+                      "A sweep with a counting StateDB and allocation accounting runs each journal instruction and the context-write precompile with length fields 2^5..2^16 (2^22 thorough). MODEXP's fee function is modelled with its clamp (Model/ModExp.v): unless the fee is the unpayable maximum, the operand lengths the input declares are at most 51 x fee + 66; the model is run against RequiredGas of both schedules. The frame's memory (Model/MemGas.v): for every sequence of expansions the bytes held are at most 32/3 x the gas paid for them; run against memory length and cost of successive instructions.",
         "level_note": COMMON_NOTE + "For the inherited opcodes the statement is inherited from go-ethereum v1.12.0 (the identity theorem over regenerated digests is part of C20's theorems) and additionally swept (sizes 2^k against allocation per gas), not re-proved. Allocation is measured with runtime.MemStats (TotalAlloc delta).",
         "rule": "6 instruction/precompile shapes x k = 5..16 (22): a length field of 2^k placed where it could drive reads, copies or allocations; plus 4 journal instructions with a pointer operand 2^10..2^24 beyond the frame's memory; bound checked: reads <= gas/100 + 2, allocated bytes <= 128 KiB + 16 x memory size; "
                 "plus 16 inherited copy/hash/log/call/create/return shapes x size 2^12..2^26 (thorough 2^10..2^63) x {Berlin, Cancun}: allocated bytes of the whole transaction <= 256 KiB + 8 x gas used; "
